@@ -181,6 +181,29 @@ def kinds():
     K['mode-family (shared cipher object)'] = (lambda: (lambda c: [ECB(c), CBC(c, IV16), CTR(c, IV16), CTS_ECB(c)])(AES(K16)),
         [('ecb.enc', lambda o: o[0].enc(M1)), ('cbc.enc', lambda o: o[1].enc(M1)), ('ctr.enc', lambda o: o[2].enc(M1)), ('cts.enc', lambda o: o[3].enc(M1)), ('ecb.dec(enc)', lambda o: o[0].dec(o[0].enc(M2))),
          ('cbc.enc(int)!', lambda o: o[1].enc(5))], None)
+    # objects built from buffers the caller still owns (bytearray keys, a Bits key, a Bits block): the caller wiping or reusing
+    # its buffers between two calls is a history like any other, and the library does not change them either
+    def mk_owned():
+        bufs = [bytearray(b'K' * 64), bytearray(b'k' * 20), bytearray(b'md6 key'), bytearray(b'skein key'), Bits(K16), Bits(K16, bitorder=1)]
+        return [HMAC(SHA2(256), bufs[0]), HMAC(SHA2(256), bufs[1]), md6r(256, bufs[2], 1), Skein(256, 256, key=bufs[3]), AES(bufs[4]), Serpent(bufs[5]), DES(K8), bufs]
+    def wipe(o):
+        # (Skein reads its key attribute at every call, by reference, like DES reads K: its buffer is the object's configuration
+        #  and is left alone here; HMAC, MD6, AES and Serpent take their key at construction)
+        for b in o[-1][:3] + o[-1][4:]:
+            if isinstance(b, bytearray):
+                for i in range(len(b)): b[i] = 0
+                b += b'zz'
+            else:
+                b.ival = 0
+    def des_bits_block(o):
+        blk = Bits(IV16[:8], bitorder=1)
+        c1 = o[6].enc(blk); c2 = o[6].enc(blk)
+        return (c1, c2, blk.ival, blk.size)
+    B16 = bytes(range(65, 81))
+    K['caller-owned buffers'] = (mk_owned, [('mac(key=bytearray of one block)', lambda o: o[0](M1)), ('mac(key=short bytearray)', lambda o: o[1](M1)), ('md6(key=bytearray)', lambda o: o[2](M1)),
+                                            ('skein(key=bytearray)', lambda o: o[3](M1)), ('aes(Bits key).enc', lambda o: o[4].enc(B16)), ('aes(Bits key).dec', lambda o: o[4].dec(B16)),
+                                            ('serpent(Bits key).enc', lambda o: o[5].enc(B16)), ('des.enc(Bits block) twice', des_bits_block),
+                                            ('~the caller wipes and grows its key buffers', lambda o: wipe(o))], None)
     return K
 
 _K = [None]
@@ -194,14 +217,14 @@ def kind_names():
             'Threefish256', 'ECB-AES', 'CBC-AES', 'CBC-DES-X923', 'ECB-TDEA', 'ECB-AES-nopadding', 'CTR-AES', 'CTR-AES-wrapping-counter', 'CTS_ECB-AES', 'CTS_CBC-DES', 'Salsa20',
             'Chacha-128-12', 'crc (functions)', 'knapsack (functions)', 'AES-family (integer-equal keys)', 'Threefish-family', 'Skein-family (same No)',
             'Chacha/Salsa-family', 'Nilsimsa-family', 'TLSH-family', 'SHA-family', 'Keccak-family', 'Blake-family', 'MD6-family', 'HMAC-family (shared hash object)',
-            'mode-family (shared cipher object)']
+            'mode-family (shared cipher object)', 'caller-owned buffers']
 
 ALPHA = {'SHA1': 7, 'SHA0': 4, 'SHA2-256': 7, 'SHA2-512/224': 7, 'MD4': 7, 'MD5': 7, 'SHA3-256': 4, 'Keccak': 8, 'Keccak-200': 4, 'MD6': 5, 'Blake256': 7, 'Blake512': 5,
          'Blake2b': 9, 'Blake2s': 9, 'Skein256': 5, 'Skein512-mac-tree': 4, 'HMAC-SHA256': 5, 'HMAC-MD5-longkey': 3, 'TLSH128': 7, 'TLSH48-3': 5, 'Nilsimsa': 6,
          'AES128': 5, 'AES256': 3, 'DES': 5, 'TDEA': 4, 'Serpent': 4, 'Threefish256': 5, 'ECB-AES': 7, 'CBC-AES': 7, 'CBC-DES-X923': 7, 'ECB-TDEA': 7,
          'ECB-AES-nopadding': 4, 'CTR-AES': 5, 'CTR-AES-wrapping-counter': 4, 'CTS_ECB-AES': 5, 'CTS_CBC-DES': 4, 'Salsa20': 7, 'Chacha-128-12': 5, 'crc (functions)': 6, 'knapsack (functions)': 5, 'AES-family (integer-equal keys)': 5, 'Threefish-family': 6, 'Skein-family (same No)': 5,
          'Chacha/Salsa-family': 5, 'Nilsimsa-family': 4, 'TLSH-family': 4, 'SHA-family': 8, 'Keccak-family': 5, 'Blake-family': 6, 'MD6-family': 4,
-         'HMAC-family (shared hash object)': 4, 'mode-family (shared cipher object)': 6}
+         'HMAC-family (shared hash object)': 4, 'mode-family (shared cipher object)': 6, 'caller-owned buffers': 9}
 
 def selftest():
     ks = K()
